@@ -75,7 +75,7 @@ func c10Rules(tier string) []Rule {
 		core.Custom{ID: "C10.ORD1", Kind: "ORD", Run: c10GraceClamp},
 
 		// queue bookkeeping
-		WMC{ID: "C10.WMC3a", Sink: `^mapupdate .*\.items\[.*\] = .*`, Allowed: []string{"(*tor.Queue).Add"}, Required: []string{"(*tor.Queue).Add"},
+		WMC{ID: "C10.WMC3a", Sink: `^mapupdate \$0\.items\[`, Allowed: []string{"(*tor.Queue).Add"}, Required: []string{"(*tor.Queue).Add"},
 			Note: "restricted below to the eviction queue's map by type"},
 		core.Custom{ID: "C10.WMC3", Kind: "WMC", Run: c10Items},
 		MPT{ID: "C10.ORD2a", Fn: "tor.earlier", Ret: core.RetSpec{Index: 0, Want: "any", Also: `^return \$0$`}, Gates: gates(
